@@ -820,11 +820,11 @@ open QP.PT
 
 def forRangeOf (σ : Scope) (start stop step : Expr) : Except Err (List Int) := do
   let a ← σ.eval start
-  let a ← match checkedInt a with | some a => pure a | none => .error .valueError
+  let a ← intOrErr a .valueError
   let b ← σ.eval stop
-  let b ← match checkedInt b with | some b => pure b | none => .error .valueError
+  let b ← intOrErr b .valueError
   let s ← σ.eval step
-  let s ← match checkedInt s with | some s => pure s | none => .error .valueError
+  let s ← intOrErr s .valueError
   if s = 0 then .error .valueError else pure (pyRange a b s)
 
 theorem internal_for_eq (id : Option String) (body : PT) (idx : String) (start stop step : Expr)
@@ -838,30 +838,43 @@ theorem internal_for_eq (id : Option String) (body : PT) (idx : String) (start s
       pure (guardRun ms items)) := by
   rw [internal]
   unfold forRangeOf
+  simp only [bind, Except.bind]
   cases validateCons cons ctx.scope.look with
   | error e => rfl
   | ok _ =>
+    simp only []
     cases ctx.scope.eval start with
     | error e => rfl
     | ok a =>
-      cases ha : checkedInt a with
-      | none => simp [bind, Except.bind, ha]
-      | some a' =>
+      simp only []
+      cases intOrErr a .valueError with
+      | error e => rfl
+      | ok a' =>
+        simp only []
         cases ctx.scope.eval stop with
-        | error e => simp [bind, Except.bind, ha, pure, Except.pure]
+        | error e => rfl
         | ok b =>
-          cases hb : checkedInt b with
-          | none => simp [bind, Except.bind, ha, hb, pure, Except.pure]
-          | some b' =>
+          simp only []
+          cases intOrErr b .valueError with
+          | error e => rfl
+          | ok b' =>
+            simp only []
             cases ctx.scope.eval step with
-            | error e => simp [bind, Except.bind, ha, hb, pure, Except.pure]
+            | error e => rfl
             | ok s =>
-              cases hs : checkedInt s with
-              | none => simp [bind, Except.bind, ha, hb, hs, pure, Except.pure]
-              | some s' =>
+              simp only []
+              cases intOrErr s .valueError with
+              | error e => rfl
+              | ok s' =>
+                simp only []
                 by_cases h0 : s' = 0
-                · simp [bind, Except.bind, ha, hb, hs, pure, Except.pure, h0]
-                · simp [bind, Except.bind, ha, hb, hs, pure, Except.pure, h0]
+                · simp [h0]
+                · simp [pure, Except.pure, h0]
+
+end QP.C05
+
+namespace QP.C05
+open QP.PT
 
 /-- the iterations of a `ForLoopPulseTemplate` -/
 def iterK (p : PT) (idx : String) (xs : List Int) : Ctx → Except Err (List Item) := fun ctx =>
